@@ -53,7 +53,10 @@ def build_cert(level, attrs, issuer_level, serial, flip=False, fakeroot=None):
             d, P = key(90 + level)          # a self-signed look-alike of the anchor: same name, another key
         issuer, (idd, iP) = subject, (d, P)
     else:
-        issuer = ("N%d" % issuer_level) if attrs["iss"] else "Nowhere"
+        issuer = ("N%d" % issuer_level)
+        if not attrs["iss"]:            # an issuer name that is not the next certificate's subject: another name, a strict prefix of it (fewer RDNs), or it plus one more RDN
+            # (the second concretisation of a chain -- `flip` -- takes the near-miss names)
+            issuer = "Nowhere" if not flip else ([('C', 'CN', 0x13)] if level % 2 == 0 else [('C', 'CN', 0x13), ('CN', "N%d" % issuer_level, 0x0c), ('OU', 'x', 0x0c)])
         idd, iP = key(90 + issuer_level) if fakeroot == issuer_level else key(issuer_level)
         if attrs["sig"] == "wrongkey":
             idd, iP = key(90 + level)
@@ -74,8 +77,11 @@ def build_cert(level, attrs, issuer_level, serial, flip=False, fakeroot=None):
         exts.append(ext_unknown(True))
     nb, na = {"in": (NOW - 30 * DAY, NOW + 300 * DAY), "before": (NOW + DAY, NOW + 100 * DAY), "after": (NOW - 100 * DAY, NOW - DAY)}[attrs["valid"]]
     tbs = tbs_cert(serial, issuer, subject, P, nb, na, exts)
+    algmismatch = issuer_level is not None and attrs["sig"] == "bad" and flip
+    if algmismatch:                     # one way of being badly signed: the algorithm named inside the signed part is not the one outside (the signature itself is good)
+        i0 = tbs.index(bytes.fromhex("2a811ccf55018375")); tbs = tbs[:i0] + bytes.fromhex("2a8648ce3d040302") + tbs[i0 + 8:]
     r, s = fast_sign(idd, iP, tbs)
-    if issuer_level is not None and attrs["sig"] == "bad":
+    if issuer_level is not None and attrs["sig"] == "bad" and not algmismatch:
         s = (s ^ 4) or 5
     der = seq(tbs, seq(oid(OID_SM2SIGN)), dbits(sigval(r, s)))
     _cert_cache[ck] = der
@@ -166,6 +172,9 @@ def body():
                 if f == "plc" and x["bc"] != "ca":
                     continue
                 out.append(x)
+        # a certificate without any extensions at all (no extensions field): as an issuer it is not a CA, wherever in the chain it sits
+        if any(h[pos][f] != v for f, v in (("bc", "absent"), ("ku", "absent"), ("eku", "absent"), ("crit", "none"))):
+            out.append(dict(h[pos], bc="absent", plc=-1, ku="absent", eku="absent", crit="none"))
         if last:
             out.append(dict(ABSENT))
         return out
